@@ -1141,7 +1141,7 @@ pub mod fasta {
 //@spec
         requires self.rwf(), wrap > 0,
         ensures
-            [C10|fasta.Record.write_wrap] r is Ok ==> writer.fin() == writer.written() + fa_render_wrap(self.head_s(), self.seq_s(), wrap as int),
+            [C10|fasta.Record.write_wrap] r is Ok && self.seq_s().len() > 0 ==> writer.fin() == writer.written() + fa_head_r(self.head_s()) + wrap_lines(self.seq_s(), wrap as int),
 //@end
 }
 
@@ -1229,6 +1229,19 @@ pub mod fasta {
         ensures
             [C13,C04|fasta.to_owned_record] r.head@ == self.head_v() && r.seq@ == concat(self.lines_v()),
 //@end
+
+//@fn fasta::RefRecord::write_unchanged ret=r tags=C11
+//@spec
+        requires
+            self.rwf(),
+        ensures
+            [C11|fasta.write_unchanged] r is Ok ==> ({
+                let raw = self.buffer@.subrange(self.buf_pos.start as int, self.buf_pos.l().last());
+                writer.fin() == writer.written() + raw + (if raw.last() != 10u8 { seq![10u8] } else { Seq::<u8>::empty() }) }),
+//@body_start
+        broadcast use io::resolve_law_b;
+        proof { self.buf_pos.lemma_offsets(self.buffer@); }
+//@end
 }
 
 //@impl_open fasta::Record for RefRecord::head
@@ -1246,6 +1259,21 @@ pub mod fasta {
 //@body_start
         proof { self.buf_pos.lemma_offsets(self.buffer@); }
 //@end
+//@fn fasta::Record for RefRecord::write ret=r tags=C10,C13
+//@body_start
+        broadcast use io::resolve_law_b, io::axiom_lend_keeps_fin;
+//@tail vx_r
+        proof { }
+//@end
+//@fn fasta::Record for RefRecord::write_wrap ret=r tags=C10,C13
+//@spec
+        ensures
+            [C10|fasta.RefRecord.write_wrap] r is Ok ==> writer.fin() == writer.written() + fa_render_wrap(self.head_s(), self.seq_s(), wrap as int),
+//@body_start
+        broadcast use io::resolve_law_b, io::axiom_lend_keeps_fin;
+//@tail vx_r
+        proof { }
+//@end
 }
 
 //@item fasta::OwnedRecord vis=keep
@@ -1257,6 +1285,17 @@ pub mod fasta {
 //@fn fasta::Record for OwnedRecord::head ret=r tags=C13
 //@end
 //@fn fasta::Record for OwnedRecord::seq ret=r tags=C13
+//@end
+//@fn fasta::Record for OwnedRecord::write ret=r tags=C10
+//@end
+//@fn fasta::Record for OwnedRecord::write_wrap ret=r tags=C10
+//@spec
+        ensures
+            [C10|fasta.OwnedRecord.write_wrap] r is Ok ==> writer.fin() == writer.written() + fa_head_r(self.head@) + wrap_lines(self.seq@, wrap as int),
+//@body_start
+        broadcast use io::resolve_law_b, io::axiom_lend_keeps_fin;
+//@tail vx_r
+        proof { }
 //@end
 }
 
